@@ -212,6 +212,30 @@ def _ns_oracle(args):
         return ('bad', 'with the AKN 2.0 maker the document differs beyond its namespace: 3.0 ...%s | 2.0 ...%s' % (sa[max(0, i - 60):i + 80], sb[max(0, i - 60):i + 80]), text)
     return ('ok', None, text)
 
+# ---- instances of C14_footnote_free_tree_is_left_alone / C02_normalise_removes_empties_only / C15_titles_touch_attachments_only ----
+def _quiet_oracle(args):
+    """a random AKN-shaped tree WITHOUT the displaced attribute and without displaced elements: resolve_displaced_content returns it unchanged
+    (text nodes merged); and where the tree has no childless removable container / no attachment, so do normalise / set_attachment_titles"""
+    seed = args
+    import random
+    rng = random.Random(seed)
+    def strip(x):
+        if x[0] == 'T': return x
+        return ['E', 'hcontainer' if x[1] == 'displaced' else x[1], [a for a in x[2] if a[0] != 'displaced'], [strip(k) for k in x[3]]]
+    t = xmlsx.norm_sx(strip(gen.gen_post_tree(rng)))
+    r = impl.post_step(('displaced', '', t))
+    if r != t:
+        return ('bad', 'footnote resolution changed a tree without references or blocks: %r -> %r' % (t, r), t)
+    removable = {'crossHeading', 'longTitle', 'content', 'preface', 'preamble', 'conclusions'}
+    els = [e for _, e in xmlsx.walk(t)]
+    if not any(e[1] in removable and not e[3] for e in els):
+        r = impl.post_step(('normalise', '', t))
+        if r != t: return ('bad', 'normalise changed a tree without childless removable containers: %r -> %r' % (t, r), t)
+    if not any(e[1] == 'attachment' for e in els):
+        r = impl.post_step(('titles', '', t))
+        if r != t: return ('bad', 'set_attachment_titles changed a tree without attachments: %r -> %r' % (t, r), t)
+    return ('ok', None, t)
+
 # minimal trees: as deep as they are large, so that every placeholder and every move makes the tree deeper than its original size
 CORNER_TREES = [
     '<p xmlns="%s"><authorialNote displaced="footnote" marker="1"/></p>',
@@ -254,6 +278,11 @@ def search(ctx, budget):
             ctx.failures.append(({'stage': 'pairs', 'seed': j[0], 'root': j[1], 'text': r[2]}, r[1]))
         elif r[0] == 'ok':
             ctx.nontrivial(('pairs',) + j)
+    qj = [ctx.rng.randrange(1 << 30) for _ in range(ctx.n(400, 20000) * budget)]
+    for j, r in zip(qj, impl.pmap(_quiet_oracle, qj, chunk=32)):
+        ctx.evaluations += 1; ctx.count('quiet_tree_' + r[0])
+        if r[0] == 'bad':
+            ctx.failures.append(({'stage': 'quiet', 'seed': j, 'tree': r[2]}, r[1]))
     nj = pj[:ctx.n(60, 2000)]
     for j, r in zip(nj, impl.pmap(_ns_oracle, nj, chunk=8)):
         ctx.evaluations += 1; ctx.count('other_namespace_' + r[0])
@@ -274,6 +303,8 @@ def replay(obj):
         print('nothing to replay:', obj.get('broken_obligations')); return 1
     if case.get('stage') == 'pairs':
         r = _pair_oracle((case['seed'], case['root'])); print(r[:2]); return 1 if r[0] == 'bad' else 0
+    if case.get('stage') == 'quiet':
+        r = _quiet_oracle(case['seed']); print(r[:2]); return 1 if r[0] == 'bad' else 0
     if case.get('stage') == 'namespace':
         r = _ns_oracle((case['seed'], case['root'])); print(r[:2]); return 1 if r[0] == 'bad' else 0
     ok = stages.replay_stage(case)
@@ -288,7 +319,7 @@ LEVEL_TEXT = ('Proof over the Gallina model of resolve_displaced_content, for ev
               'internal one, direct text - are, as a multiset, the elements of the input with every unused block turned into its "FOOTNOTE m" '
               'paragraph, minus the used blocks (whose children all stay, inside the note), plus one "(content missing)" paragraph per reference '
               'without a block (C14_no_content_vanishes; 1000 lines: unique ids, the reference stays reachable after the block is taken out, the '
-              'fuel of every traversal suffices). The rest of the property (matching rule, one note per reference, placeholder, surplus blocks '
+              'fuel of every traversal suffices); a tree without references and blocks comes out of resolution as it went in, and on a tree that also has no childless removable container, no attachment and merged text nodes the whole of post-processing is eId generation (C14_footnote_free_tree_is_left_alone, C14_post_processing_is_eid_generation; instances run on the implementation). The rest of the property (matching rule, one note per reference, placeholder, surplus blocks '
               'kept, attribute removed) is the executable model itself, tied to xml.py by the post stage on random trees with repeated/missing/'
               'surplus/nested/out-of-order markers (including trees outside the parser image) and by the e2e stage, and checked on the '
               'implementation by the footnote oracle. Partial: those clauses are not yet theorems against an independent specification.')
